@@ -271,7 +271,12 @@ class Interp:
                     pass
             elif isinstance(st, ast.ClassDef):
                 self.classes[st.name] = {m.name: m for m in st.body if isinstance(m, ast.FunctionDef)}
-                self.globals[st.name] = ClassRef(st.name)
+                cr = ClassRef(st.name)
+                # a plain class (no bases, no decorators, at most methods): instantiable in the evaluator
+                cr.plain = not st.decorator_list and not st.keywords and all(_dotted(b) == "object" for b in st.bases) \
+                    and all(isinstance(m, (ast.FunctionDef, ast.Pass)) or (isinstance(m, ast.Expr) and isinstance(m.value, ast.Constant))
+                            for m in st.body)
+                self.globals[st.name] = cr
 
     # ------------------------------------------------------------------ calls
     def call(self, fn: ast.FunctionDef | ast.Lambda, args: list, kwargs: dict | None = None,
@@ -595,6 +600,9 @@ class Interp:
                 self.assign(t, x, env)
         elif isinstance(target, ast.Attribute):
             obj = self.eval(target.value, env)
+            if isinstance(obj, Closure):
+                obj.__dict__.setdefault("fattrs", {})[target.attr] = v      # function attributes (`f.overrides = ...`)
+                return
             if not isinstance(obj, Record):
                 raise AnalysisError(f"{self.name}: attribute assignment on {type(obj).__name__}")
             if obj.frozen_attrs is not None and target.attr not in obj.frozen_attrs and target.attr not in obj.fields:
@@ -638,7 +646,8 @@ class Interp:
         if name in HOST_TYPES:
             return HOST_TYPES[name]
         if name in ("isinstance", "issubclass", "hasattr", "len", "any", "all", "repr", "sorted", "min", "max",
-                    "enumerate", "zip", "range", "abs", "getattr", "filter", "map", "next", "iter", "reversed", "sum"):
+                    "enumerate", "zip", "range", "abs", "getattr", "filter", "map", "next", "iter", "reversed", "sum",
+                    "divmod", "pow", "round", "ord", "chr"):
             return ("builtin", name)
         if name == "NotImplemented":
             return NotImplemented
@@ -899,6 +908,13 @@ class Interp:
             if meth is not None:
                 return ("bound", obj, meth)
             raise Raised("AttributeError", (a,))
+        if isinstance(obj, Closure):
+            fa = obj.__dict__.get("fattrs", {})
+            if a in fa:
+                return fa[a]
+            if a == "__name__":
+                return getattr(obj.node, "name", "<lambda>")
+            raise Raised("AttributeError", (a,))
         if isinstance(obj, ClassRef):
             if a in ("__name__", "__qualname__"):
                 return obj.name
@@ -1043,6 +1059,16 @@ class Interp:
             return f(*args, **kwargs)
         if isinstance(f, ClassRef) and f.call is not None:
             return f.call(*args, **kwargs)
+        if isinstance(f, Record) and "__call__" in f.fields:
+            return self.apply(f.fields["__call__"], args, kwargs)
+        if isinstance(f, ClassRef) and getattr(f, "plain", False) and f.name in self.classes:
+            rec = Record(f.name, {}, None)
+            init = self.classes[f.name].get("__init__")
+            if init is not None:
+                self.call(init, [rec, *args], kwargs)
+            elif args or kwargs:
+                raise Raised("TypeError", (f"{f.name}() takes no arguments",))
+            return rec
         if isinstance(f, ModuleRef) and "__call__" in f.attrs:
             return self.apply(f.attrs["__call__"], args, kwargs)
         if f is type and len(args) == 1:
@@ -1088,6 +1114,13 @@ class Interp:
         raise AnalysisError(f"{self.name}: call of {f!r} is outside the subset")
 
     def builtin(self, name, args, kwargs):
+        if name in ("divmod", "pow", "round", "ord", "chr"):
+            if any(isinstance(a, (Record, ClassRef, ModuleRef)) for a in args):
+                raise AnalysisError(f"{self.name}: {name}() of a model object")
+            try:
+                return {"divmod": divmod, "pow": pow, "round": round, "ord": ord, "chr": chr}[name](*args, **kwargs)
+            except (ValueError, TypeError, ZeroDivisionError) as e:
+                raise Raised(type(e).__name__, e.args)
         if name == "isinstance":
             obj, t = args
             ts = t if isinstance(t, tuple) else (t,)
